@@ -167,7 +167,13 @@ def main():
     prev = json.load(open(outp)) if os.path.exists(outp) else []
     if "--retest-survivors" in a:
         # after the checks were strengthened: run the recorded survivors again (same mutants)
-        again = lambda r: (r["status"] == "SURVIVED" and not r.get("equivalent")) or (r["status"] == "SURVIVED" and r.get("tool_errors"))
+        cpath = os.path.join(V, "seeded", "mutation", "CLASSIFY.json")
+        cls = json.load(open(cpath)) if os.path.exists(cpath) else {}
+        def again(r):
+            if r["status"] != "SURVIVED":
+                return False
+            c = cls.get("%s:%d:%s" % (r["file"], r["line"] + 1, r["op"]))
+            return c is None or not c[0].startswith(("equivalent", "not covered"))      # unclassified, closed gaps, list omissions
         pick = [{k: r[k] for k in ("file", "line", "op", "new")} for r in prev if again(r)]
         prev = [r for r in prev if not again(r)]
     done = {(r["file"], r["line"], r["new"]) for r in prev}
